@@ -111,7 +111,7 @@ func VerifC15WriteSetStubbed() {
 		BaseTlsConfiguration: &tls.Config{},
 		Options:              opts,
 		FetchCredsFunc: func(ctx context.Context, st nodeenrollment.Storage, req *types.FetchNodeCredentialsRequest, opt ...nodeenrollment.Option) (*types.FetchNodeCredentialsResponse, error) {
-			_ = append(opt, nodeenrollment.WithState(nil)) // what the token path of the real function does with its options
+			_ = append(opt, nodeenrollment.WithState(nil))    // what the token path of the real function does with its options
 			return &types.FetchNodeCredentialsResponse{}, nil // "not authorized yet" canary
 		},
 		GenerateServerCertificatesFunc: func(context.Context, nodeenrollment.Storage, *types.GenerateServerCertificatesRequest, ...nodeenrollment.Option) (*types.GenerateServerCertificatesResponse, error) {
